@@ -198,7 +198,13 @@ ZeroEverywhere(t) ==
                IsZeroA(r.base) /\ IsZeroA(r.amount) /\ (Has(r.sur) => IsZeroA(Val(r.sur).amount))
 
 \* equality of summaries up to the order of categories and of groups inside a category
-RatesPerm(rs1, rs2) == Len(rs1) = Len(rs2) /\ \A i \in DOMAIN rs1 : \E j \in DOMAIN rs2 : rs1[i] = rs2[j]
+\* the same group: equal figures; the percentage is compared as a number (21.0% and 21% are one group,
+\* presented with the spelling of its first row)
+RateSame(r1, r2) == /\ r1.country = r2.country /\ r1.ext = r2.ext /\ r1.base = r2.base /\ r1.amount = r2.amount
+                    /\ OptEq(r1.pct, r2.pct)
+                    /\ Has(r1.sur) = Has(r2.sur)
+                    /\ (Has(r1.sur) => Val(r1.sur).amount = Val(r2.sur).amount /\ AEq(Val(r1.sur).pct, Val(r2.sur).pct))
+RatesPerm(rs1, rs2) == Len(rs1) = Len(rs2) /\ \A i \in DOMAIN rs1 : \E j \in DOMAIN rs2 : RateSame(rs1[i], rs2[j])
 CatsPerm(cs1, cs2) ==
     /\ Len(cs1) = Len(cs2)
     /\ \A i \in DOMAIN cs1 : \E j \in DOMAIN cs2 :
